@@ -104,6 +104,7 @@ def sum_tol(n):
 # --------------------------------------------------------------------------- oracle
 def oracle(chk, quick):
     from aotools import opticalpropagation as op
+    op = common.Guarded(op, chk)
     rng = chk.rng
     nprng = numpy.random.default_rng(rng.getrandbits(32))
     it = rng.randint(0, 9)
@@ -366,6 +367,7 @@ def pinned_tie(chk, quick):
     """ties `twoStepFresnel_pinned` (the model the proved defect statement `twoStep_pinned_point_reflected` is about) to the code: the repaired
     function differs from it exactly by the final point reflection, which is an involution"""
     from aotools import opticalpropagation as op
+    op = common.Guarded(op, chk)
     nprng = numpy.random.default_rng(chk.rng.getrandbits(32))
     lines, expect, desc = [], [], []
     for it in range(6 if quick else 30):
